@@ -342,6 +342,7 @@ class Scheduler:
           self.cv.notify_all()
     for t in threads:
       t.join(2.0)
+    self.ident2idx = {}   # thread idents are reused by later, uncontrolled threads
     h = hashlib.blake2b(repr(self.trace).encode(), digest_size=8).hexdigest()
     return {'results': results, 'errors': errors, 'trace': list(self.trace), 'trace_hash': h, 'steps': list(self.steps),
             'switches': self.switches, 'points': set(self.points), 'deadlock': self.deadlock, 'timed_out': timed_out,
